@@ -141,4 +141,44 @@ def rollU32_unfixed (r : RollerCfg) (file : Path) (fault : Nat → Bool) (d : Di
     (.panic "attempt to add with overflow", d)
   else liftRoll (fixedWindowRoll r file fault d)
 
+/-- is `e` an error of the final move/compress (`compression.compress(&file, &dst_0)`, the only call
+whose error `rotate` printed)? `notFound` comes from nowhere else (the shifts tolerate it); an
+injected fault counts when it sits on the final step (index `count - 1`). -/
+def RollerCfg.finalStepErr (r : RollerCfg) : FsErr → Bool
+  | .notFound => r.count != 0
+  | .injected k => r.count != 0 && k + 1 == r.count
+
+/-- what `rotate` answers when there is no file to roll and it looks first: a plain pattern
+reports Ok (as `move_file` always did for a missing source), a compressing one the `NotFound` of
+`File::open` — in both cases without having touched anything -/
+def RollerCfg.missingResult (r : RollerCfg) (d : Disk) : Outcome FsErr Disk × Disk :=
+  match r.comp with
+  | .none => (.ok d, d)
+  | _ => (.err .notFound, d)
+
+/-- `FixedWindowRoller::roll` as a process sees it.
+
+`checksFileFirst` (count ≠ 0): no file to roll ⇒ `missingResult`, nothing shifted. Without it
+(the code before the fix) the rotation runs on the disk as it is: the shift loop moves every archive
+up, evicts the oldest and leaves slot `base` empty.
+
+`stdoutWritable` is a condition of the process (false: fd 1 is a closed pipe with SIGPIPE ignored —
+Rust's default —, or a full device). Before the fix a roller with `printsOnError` printed the error
+of its final step with `println!`, which panics on an unwritable stdout: the failed roll then
+PANICKED instead of returning its error (and under `background_rotation` the rotation thread died
+before setting `ready`, so every later roll waited for ever).
+
+With `checksFileFirst = true`, `printsOnError = false` (the fully repaired variant; the code now has `checksFileFirst = false`, the default) and the file
+present this is `rollU32` (`C07_rollProc_present`). -/
+def rollProc (stdoutWritable : Bool) (r : RollerCfg) (file : Path) (fault : Nat → Bool) (d : Disk) :
+    Outcome FsErr Disk × Disk :=
+  if r.checksFileFirst && r.count != 0 && !d.has file then r.missingResult d
+  else
+    match rollU32 r file fault d with
+    | (.err e, d') =>
+      if r.printsOnError && !stdoutWritable && r.finalStepErr e then
+        (.panic "failed printing to stdout", d')
+      else (.err e, d')
+    | x => x
+
 end Log4rs.Roller
